@@ -740,4 +740,347 @@ example :
       exact Nat.zero_lt_one
     · cases h
 
+/-! ### unlimited flags -/
+
+/-- the name under which a dimension of the input appears in the output -/
+def SOp.ren : SOp → String → String
+  | .renameDim o n, k => if k == o then n else k
+  | .renameDims ps, k => renameKey (ps.filter (fun p => p.1 != p.2)) k
+  | _, k => k
+
+/-- in a list with distinct names, two members of one name are the same -/
+theorem eq_of_name_eq (l : List Dim) (hn : (l.map (·.name)).Nodup) (a b : Dim) (ha : a ∈ l) (hb : b ∈ l)
+    (h : a.name = b.name) : a = b := by
+  induction l with
+  | nil => cases ha
+  | cons x l ih =>
+    simp only [List.map_cons, List.nodup_cons] at hn
+    rcases List.mem_cons.mp ha with rfl | ha'
+    · rcases List.mem_cons.mp hb with rfl | hb'
+      · rfl
+      · exact absurd (List.mem_map.mpr ⟨b, hb', h.symm⟩) hn.1
+    · rcases List.mem_cons.mp hb with rfl | hb'
+      · exact absurd (List.mem_map.mpr ⟨a, ha', h⟩) hn.1
+      · exact ih hn.2 ha' hb'
+
+/-- flags under an operation that keeps the list of dimensions -/
+theorem unlim_same (f g : File) (hdn : DimsNodup f) (h : g.dims = f.dims) :
+    ∀ d ∈ g.dims, ∀ d0 ∈ f.dims, d.name = d0.name → d.unlim = d0.unlim := by
+  intro d hd d0 hd0 hname
+  rw [h] at hd
+  rw [eq_of_name_eq f.dims hdn d d0 hd hd0 hname]
+
+/-- flags under an operation that changes lengths only -/
+theorem unlim_map (f : File) (hdn : DimsNodup f) (len : Dim → Nat) :
+    ∀ d ∈ f.dims.map (fun d => ({ d with len := len d } : Dim)), ∀ d0 ∈ f.dims, d.name = d0.name → d.unlim = d0.unlim := by
+  intro d hd d0 hd0 hname
+  obtain ⟨d1, hd1, rfl⟩ := List.mem_map.mp hd
+  rw [eq_of_name_eq f.dims hdn d1 d0 hd1 hd0 hname]
+
+
+theorem mem_dims_of_dim? {f : File} {k : String} {d : Dim} (h : f.dim? k = some d) : d ∈ f.dims ∧ d.name = k := by
+  unfold File.dim? at h
+  refine ⟨List.mem_of_find?_eq_some h, ?_⟩
+  have := List.find?_some h
+  simpa using this
+
+theorem dim?_none_of_isNone {f : File} {k : String} (h : ¬ (f.dim? k).isSome = true) : f.dim? k = none := by
+  cases hd : f.dim? k with
+  | none => rfl
+  | some d => rw [hd] at h; simp at h
+
+theorem lookup_some_mem : ∀ (ps : List (String × String)) (k n : String), ps.lookup k = some n → ∃ p ∈ ps, p.1 = k ∧ p.2 = n
+  | [], _, _, h => by simp [List.lookup] at h
+  | (a, b) :: ps, k, n, h => by
+    simp only [List.lookup] at h
+    split at h
+    · rename_i hk
+      simp only [Option.some.injEq] at h
+      exact ⟨(a, b), by simp, (by simpa using hk : k = a).symm, h⟩
+    · obtain ⟨p, hp, h1, h2⟩ := lookup_some_mem ps k n h
+      exact ⟨p, List.mem_cons_of_mem _ hp, h1, h2⟩
+
+theorem eq_of_snd_eq : ∀ (ps : List (String × String)), (ps.map (·.2)).Nodup → ∀ p ∈ ps, ∀ q ∈ ps, p.2 = q.2 → p = q
+  | [], _, p, hp, _, _, _ => by cases hp
+  | x :: ps, hn, p, hp, q, hq, h => by
+    simp only [List.map_cons, List.nodup_cons] at hn
+    rcases List.mem_cons.mp hp with rfl | hp'
+    · rcases List.mem_cons.mp hq with rfl | hq'
+      · rfl
+      · exact absurd (List.mem_map.mpr ⟨q, hq', h.symm⟩) hn.1
+    · rcases List.mem_cons.mp hq with rfl | hq'
+      · exact absurd (List.mem_map.mpr ⟨p, hp', h⟩) hn.1
+      · exact eq_of_snd_eq ps hn.2 p hp' q hq' h
+
+theorem mem_renamedDims (f : File) : ∀ (ps : List (String × String)) (d : Dim), d ∈ renamedDims f ps →
+    ∃ p ∈ ps, ∃ d1, f.dim? p.1 = some d1 ∧ d = { d1 with name := p.2 } := by
+  intro ps d hd
+  unfold renamedDims at hd
+  obtain ⟨p, hp, hpd⟩ := List.mem_filterMap.mp hd
+  cases h1 : f.dim? p.1 with
+  | none => rw [h1] at hpd; cases hpd
+  | some d1 =>
+    rw [h1] at hpd
+    simp only [Option.map_some, Option.some.injEq] at hpd
+    exact ⟨p, hp, d1, h1, hpd.symm⟩
+
+theorem renameVar_dims (f r : File) (old new : String) (hs : renameVarFile f old new = .ok r) : r.dims = f.dims := by
+  unfold renameVarFile at hs
+  cases hv : f.var? old with
+  | none => simp [hv] at hs
+  | some v0 =>
+    simp only [hv, Except.ok.injEq] at hs
+    subst hs
+    rfl
+
+/-- **C01 (surviving dimensions keep their unlimited flag), one step.** Whatever an operation of the sequences does —
+cut, reduce, rename, remove, insert, stack — a dimension of the input that is still there afterwards (under the name the
+operation gives it) has the flag it had. -/
+theorem step_unlim (f g : File) (o : SOp) (hdn : DimsNodup f) (hd : Dom f o) (hs : o.run f = .ok g) :
+    ∀ d ∈ g.dims, ∀ d0 ∈ f.dims, d.name = SOp.ren o d0.name → d.unlim = d0.unlim := by
+  cases o with
+  | copy =>
+    have e : g = f := (Except.ok.inj hs).symm
+    rw [e]
+    exact unlim_same f f hdn rfl
+  | slice ss nd =>
+    intro d hdm d0 hd0 hname
+    simp only [SOp.ren] at hname
+    have hs' : sliceFile f ss nd = .ok g := hs
+    clear hs
+    rename' hs' => hs
+    unfold sliceFile at hs
+    split at hs
+    · cases hs
+    · split at hs
+      · cases hs
+      · simp only at hs
+        split at hs
+        · cases hs
+        · split at hs
+          · cases hs
+          · rename_i idx hidx
+            split at hs
+            · have e := (Except.ok.inj hs).symm
+              subst e
+              simp only at hdm
+              split at hdm
+              · rename_i hz
+                rcases List.mem_append.mp hdm with h1 | h2
+                · exact unlim_map f hdn _ d h1 d0 hd0 hname
+                · simp only [List.mem_cons, List.mem_nil_iff, or_false] at h2
+                  subst h2
+                  simp only at hname
+                  exact absurd (List.mem_map.mpr ⟨d0, hd0, hname.symm⟩) (dim?_none_not_mem (hd hz))
+              · exact unlim_map f hdn _ d hdm d0 hd0 hname
+            · cases hs
+  | apply fns =>
+    intro d hdm d0 hd0 hname
+    simp only [SOp.ren] at hname
+    have hs' : applyFile f fns = .ok g := hs
+    clear hs
+    rename' hs' => hs
+    unfold applyFile at hs
+    split at hs
+    · cases hs
+    · split at hs
+      · cases hs
+      · split at hs
+        · cases hs
+        · have e := (Except.ok.inj hs).symm
+          subst e
+          exact unlim_map f hdn _ d hdm d0 hd0 hname
+  | subset keys ex => exact unlim_same f g hdn (subset_names f g keys ex hs).1
+  | renameVar a b => exact unlim_same f g hdn (renameVar_dims f g a b hs)
+  | renameDim a b =>
+    intro d hdm d0 hd0 hname
+    simp only [SOp.ren] at hname
+    have hs' : renameDimFile f a b = .ok g := hs
+    clear hs
+    unfold renameDimFile at hs'
+    split at hs'
+    · rename_i heq
+      have e : g = f := (Except.ok.inj hs').symm
+      rw [e] at hdm
+      have hab : a = b := by simpa using heq
+      have : d.name = d0.name := by
+        rw [hname]
+        split
+        · rename_i hk
+          have : d0.name = a := by simpa using hk
+          rw [this, hab]
+        · rfl
+      exact congrArg Dim.unlim (eq_of_name_eq f.dims hdn d d0 hdm hd0 this)
+    · rename_i hne
+      split at hs'
+      · cases hs'
+      · split at hs'
+        · cases hs'
+        · rename_i hnew
+          have hnone := dim?_none_of_isNone hnew
+          have e := (Except.ok.inj hs').symm
+          subst e
+          simp only at hdm
+          rcases List.mem_append.mp hdm with h1 | h2
+          · have hdf := (List.mem_filter.mp h1).1
+            have hda : d.name ≠ a := by simpa using (List.mem_filter.mp h1).2
+            by_cases hk : (d0.name == a) = true
+            · rw [if_pos hk] at hname
+              exact absurd (List.mem_map.mpr ⟨d, hdf, hname⟩) (dim?_none_not_mem hnone)
+            · rw [if_neg hk] at hname
+              exact congrArg Dim.unlim (eq_of_name_eq f.dims hdn d d0 hdf hd0 hname)
+          · cases hda : f.dim? a with
+            | none => rw [hda] at h2; simp at h2
+            | some d1 =>
+              rw [hda] at h2
+              simp only [Option.map_some, Option.toList_some, List.mem_cons, List.mem_nil_iff, or_false] at h2
+              subst h2
+              obtain ⟨hd1, hd1n⟩ := mem_dims_of_dim? hda
+              simp only at hname
+              by_cases hk : (d0.name == a) = true
+              · have : d1.name = d0.name := by rw [hd1n]; exact (by simpa using hk : d0.name = a).symm
+                rw [eq_of_name_eq f.dims hdn d1 d0 hd1 hd0 this]
+              · rw [if_neg hk] at hname
+                exact absurd (List.mem_map.mpr ⟨d0, hd0, hname.symm⟩) (dim?_none_not_mem hnone)
+  | renameDims pairs =>
+    intro d hdm d0 hd0 hname
+    simp only [SOp.ren, renameKey] at hname
+    have hs' : renameDimsFile f pairs = .ok g := hs
+    clear hs
+    unfold renameDimsFile at hs'
+    simp only at hs'
+    split at hs'
+    · cases hs'
+    · rename_i hnd
+      split at hs'
+      · cases hs'
+      · rename_i hfree
+        split at hs'
+        · cases hs'
+        · have e := (Except.ok.inj hs').symm
+          subst e
+          simp only at hdm
+          have hnd' : ((pairs.filter (fun p => p.1 != p.2)).map (·.2)).Nodup := by simpa using hnd
+          have hfree' : ∀ p ∈ pairs.filter (fun p => p.1 != p.2), f.dim? p.2 = none := by
+            intro p hp
+            cases h : f.dim? p.2 with
+            | none => rfl
+            | some dd =>
+              exfalso
+              apply hfree
+              rw [List.any_eq_true]
+              exact ⟨p, hp, by rw [h]; rfl⟩
+          rcases List.mem_append.mp hdm with h1 | h2
+          · have hdf := (List.mem_filter.mp h1).1
+            cases hl : (pairs.filter (fun p => p.1 != p.2)).lookup d0.name with
+            | some n =>
+              rw [hl] at hname
+              simp only [Option.getD_some] at hname
+              obtain ⟨p, hp, _, hp2⟩ := lookup_some_mem _ _ _ hl
+              have := hfree' p hp
+              rw [hp2, ← hname] at this
+              exact absurd (List.mem_map.mpr ⟨d, hdf, rfl⟩) (dim?_none_not_mem this)
+            | none =>
+              rw [hl] at hname
+              simp only [Option.getD_none] at hname
+              exact congrArg Dim.unlim (eq_of_name_eq f.dims hdn d d0 hdf hd0 hname)
+          · obtain ⟨p, hp, d1, hd1, hdd⟩ := mem_renamedDims f _ d h2
+            subst hdd
+            obtain ⟨hd1m, hd1n⟩ := mem_dims_of_dim? hd1
+            simp only at hname ⊢
+            cases hl : (pairs.filter (fun p => p.1 != p.2)).lookup d0.name with
+            | some n =>
+              rw [hl] at hname
+              simp only [Option.getD_some] at hname
+              obtain ⟨q, hq, hq1, hq2⟩ := lookup_some_mem _ _ _ hl
+              have hpq : p = q := eq_of_snd_eq _ hnd' p hp q hq (by rw [hq2]; exact hname)
+              have : d1.name = d0.name := by rw [hd1n, hpq, hq1]
+              rw [eq_of_name_eq f.dims hdn d1 d0 hd1m hd0 this]
+            | none =>
+              rw [hl] at hname
+              simp only [Option.getD_none] at hname
+              have := hfree' p hp
+              rw [hname] at this
+              exact absurd (List.mem_map.mpr ⟨d0, hd0, rfl⟩) (dim?_none_not_mem this)
+  | removeSingleton dk =>
+    intro d hdm d0 hd0 hname
+    simp only [SOp.ren] at hname
+    have e := (Except.ok.inj hs).symm
+    subst e
+    unfold removeSingletonFile at hdm
+    exact congrArg Dim.unlim (eq_of_name_eq f.dims hdn d d0 (List.mem_filter.mp hdm).1 hd0 hname)
+  | insertDim name l no mo b a =>
+    intro d hdm d0 hd0 hname
+    simp only [SOp.ren] at hname
+    have e := (Except.ok.inj hs).symm
+    subst e
+    unfold insertDimFile at hdm
+    simp only at hdm
+    split at hdm
+    · exact congrArg Dim.unlim (eq_of_name_eq f.dims hdn d d0 hdm hd0 hname)
+    · rename_i hex
+      rcases List.mem_append.mp hdm with h1 | h2
+      · exact congrArg Dim.unlim (eq_of_name_eq f.dims hdn d d0 h1 hd0 hname)
+      · simp only [List.mem_cons, List.mem_nil_iff, or_false] at h2
+        subst h2
+        simp only at hname
+        exact absurd (List.mem_map.mpr ⟨d0, hd0, hname.symm⟩) (dim?_none_not_mem (dim?_none_of_isNone hex))
+  | reorder names => exact unlim_same f g hdn (reorder_names f g names hs).1
+  | stackSelf sd =>
+    intro d hdm d0 hd0 hname
+    simp only [SOp.ren] at hname
+    obtain ⟨vars, _, hr, _, _⟩ := stack_ok f [f] sd g hs
+    subst hr
+    simp only at hdm
+    rcases List.mem_append.mp hdm with h1 | h2
+    · exact congrArg Dim.unlim (eq_of_name_eq f.dims hdn d d0 (shared_facts _ f sd d h1).1 hd0 hname)
+    · simp only [List.mem_cons, List.mem_nil_iff, or_false] at h2
+      subst h2
+      simp only at hname ⊢
+      have hfind : f.dim? sd = some d0 := by
+        unfold File.dim?
+        rw [hname]
+        exact find?_name_of_mem (fun (x : Dim) => x.name) f.dims hdn d0 hd0
+      rw [hfind]
+      rfl
+  | binopSelf op => exact unlim_same f g hdn (binop_names op f f g [] hs).1
+  | maskGt q =>
+    have e := (Except.ok.inj hs).symm
+    subst e
+    exact unlim_same f _ hdn rfl
+  | eval t e => exact unlim_same f g hdn (evalInto_spec _ f g t e hs).1
+
+
+/-- the steps a sequence takes: (file before, operation, file after), up to the first operation that raises -/
+def transitions (f : File) : List SOp → List (File × SOp × File)
+  | [] => []
+  | o :: rest => match o.run f with
+    | .ok g => (f, o, g) :: transitions g rest
+    | .error _ => []
+
+/-- **C01 (unlimited flags along any sequence).** In every step of every sequence of in-domain operations from a file
+that meets the invariant, each dimension that survives the step keeps its unlimited flag. -/
+theorem seq_unlim : ∀ (ops : List SOp) (f : File), Inv f → DomSeq f ops →
+    ∀ t ∈ transitions f ops, ∀ d ∈ t.2.2.dims, ∀ d0 ∈ t.1.dims, d.name = SOp.ren t.2.1 d0.name → d.unlim = d0.unlim
+  | [], _, _, _, t, ht => by cases ht
+  | o :: rest, f, h, hd, t, ht => by
+    unfold transitions at ht
+    split at ht
+    · rename_i g hrun
+      rcases List.mem_cons.mp ht with rfl | ht'
+      · exact step_unlim f g o h.2.1 hd.1 hrun
+      · exact seq_unlim rest g (step_inv f g o h hd.1 hrun) (hd.2 g hrun) t ht'
+    · cases ht
+
+/-- non-vacuity: an unlimited `t` cut, renamed and stacked keeps its flag; the inserted dimension is fixed -/
+example :
+    let f : File := ⟨[⟨"t", 2, true⟩, ⟨"x", 2, false⟩], [⟨"A", ["t", "x"], .node [.node [.leaf (some 1), .leaf (some 2)],
+      .node [.leaf (some 3), .leaf none]], [], false, false⟩], []⟩
+    let ops : List SOp := [.slice [("t", .slice none none (-1))] "POINTS", .renameDim "t" "time",
+      .insertDim "ens" 2 false false none none, .stackSelf "time"]
+    (transitions f ops).map (fun t => t.2.2.dims.map (fun d => (d.name, d.len, d.unlim))) =
+      [[("t", 2, true), ("x", 2, false)], [("x", 2, false), ("time", 2, true)],
+       [("x", 2, false), ("time", 2, true), ("ens", 2, false)], [("x", 2, false), ("ens", 2, false), ("time", 4, true)]] := by
+  decide +kernel
+
 end Props.C01
